@@ -74,3 +74,11 @@ Definition tuple_ge (a b : list str) : bool := key_ltb b a || key_eqb b a.
 
 (** s[-1:] *)
 Definition last1 (s : str) : str := match last_opt s with Some c => [c] | None => [] end.
+
+(** [for idx, x in enumerate(xs): body] with a body that may raise: the state is threaded
+    through, the first failure stops the loop *)
+Fixpoint loop_idx {St : Type} (f : nat -> str -> St -> result St) (i : nat) (xs : list str) (st : St) : result St :=
+  match xs with
+  | [] => Ok st
+  | x :: r => match f i x st with Err e => Err e | Ok st' => loop_idx f (S i) r st' end
+  end.
